@@ -23,7 +23,7 @@ def parseErrorLevels : List (String × Nat) := [
   ("DataBindingNotAllowed", 1),
   ("InvalidIdentifier", 4),
   ("InvalidScopeName", 1),
-  ("ChildNodesNotAllowed", 1),
+  ("ChildNodesNotAllowed", 3),
   ("IllegalEscapeSequence", 3),
   ("IncompleteConditionExpression", 4),
   ("UnmatchedBracket", 4),
